@@ -89,6 +89,10 @@ def measure(ctx, case):
     nprng = np.random.default_rng(case["mseed"])
     imp = np.zeros((W, H, n))
     imp[0, 0, :] = 1.0
+    # a call with the same stack shape but another pixel size and other doses comes first: nothing of it may leak
+    # into the measured calls (memoised frequency arrays, cached attenuation tables ...)
+    decoy_px = px * 1.37 if px * 1.37 <= 10.0 else px / 1.37
+    apply_filter(ctx, imp, decoy_px, [min(300.0, x * 0.5 + 11.0) for x in d], how, "d")
     o_imp = apply_filter(ctx, imp, px, d, how)
     t = {"W": W, "H": H, "n": n, "d100": case["d100"], "lx100": case["lx100"], "ly100": case["ly100"],
          "xexact": case["xexact"], "yexact": case["yexact"], "complete": True, "real": True}
@@ -104,7 +108,25 @@ def measure(ctx, case):
     # random images: agreement with the impulse gains (linear, diagonal in Fourier space), mean, linearity
     R = nprng.normal(size=(W, H, n)) + nprng.uniform(-2, 2)
     R2 = nprng.normal(size=(W, H, n))
-    o_r = np.asarray(apply_filter(ctx, R, px, d, how), dtype=float)
+    R0 = R.copy()
+    dose_in = dose_arg(ctx, d, how, "r")
+    dose_before = open(dose_in).read() if isinstance(dose_in, str) else np.array(dose_in, dtype=float).copy()
+    from cryocat import tiltstack
+    first = quiet(tiltstack.dose_filter, R, px, dose_in)
+    o_r = np.array(first, dtype=float)                       # snapshot of the first result
+    # independence of calls: a later call leaves the earlier result alone; after the caller overwrites the returned
+    # stacks the same call gives the same stack again; the arguments (stack, doses) are not modified
+    second = quiet(tiltstack.dose_filter, R, px, dose_in)
+    quiet(tiltstack.dose_filter, R2, px, dose_in)            # and a later call with another stack of the same shape
+    keep = float(np.max(np.abs(np.asarray(first, dtype=float) - o_r)))
+    for arr in (first, second):
+        if isinstance(arr, np.ndarray) and arr.flags.writeable:
+            arr[...] = 7.0
+    third = np.asarray(quiet(tiltstack.dose_filter, R, px, dose_in), dtype=float)
+    rep = float(np.max(np.abs(third - o_r))) if third.shape == o_r.shape else 2.0
+    dose_after = open(dose_in).read() if isinstance(dose_in, str) else np.array(dose_in, dtype=float)
+    argmut = not np.array_equal(R, R0) or not (dose_after == dose_before if isinstance(dose_in, str)
+                                                else np.array_equal(dose_after, dose_before))
     FR = np.stack([np.fft.fft2(R[:, :, i]) for i in range(n)])
     Gr = gains_of(o_r, W, H, n) / FR
     spread = max(float(np.max(np.abs(Gr - G))), float(np.max(np.abs(G.imag))))
@@ -139,6 +161,7 @@ def measure(ctx, case):
             gk = np.fft.fft2(ow[:, :, i])[kx % W, ky % H] / Fw
             pw = max(pw, abs(gk - G[i, kx % W, ky % H]))
             leak = max(leak, float(np.max(np.abs(ow[:, :, i] - gk.real * w))))
+    t.update({"rep": clampi(rep * 1e9 / scale), "keep": clampi(keep * 1e9 / scale), "argmut": bool(argmut)})
     t.update({"spread": clampi(spread * 1e9), "mean": clampi(mean * 1e9), "lin": clampi(lin * 1e9), "pw": clampi(pw * 1e9),
               "leak": clampi(leak * 1e9)})
     # composition: d1 then d2 against d1 + d2 at once
@@ -192,8 +215,8 @@ def run_traces(ctx, cases, name="trace", batch=40, need_calibration=False):
                 continue
             if v["clause"] == "malformed_trace":
                 raise core.MachineryError("driver recorded a malformed table: %s" % ({k: case[k] for k in ("W", "H", "n", "d100")},))
-            ctx.fail(v["clause"], "DoseTrace rejects the measured exponents (residuals x1e-9: spread=%d mean=%d lin=%d pw=%d leak=%d)" % (
-                t["spread"], t["mean"], t["lin"], t["pw"], t["leak"]), case, case_sig(case))
+            ctx.fail(v["clause"], "DoseTrace rejects the measured exponents (residuals x1e-9: spread=%d mean=%d lin=%d pw=%d leak=%d rep=%d keep=%d argmut=%s)" % (
+                t["spread"], t["mean"], t["lin"], t["pw"], t["leak"], t["rep"], t["keep"], t["argmut"]), case, case_sig(case))
     ctx.extra["calibration_points_checked"] = ctx.extra.get("calibration_points_checked", 0) + calib_total
     if need_calibration and calib_total == 0 and not ctx.failures:
         raise core.MachineryError("coverage hole: no measured frequency fell on the calibration grid")
@@ -273,6 +296,8 @@ def run(ctx):
         "1e-10 are logged as saturated, A = 23000) is trusted",
         "the closed form is decided only at on-axis frequencies on the grid m/200 1/A, m = 10..100, for doses >= 50 e/A^2 "
         "(0.5 %); elsewhere only through the relational clauses (radial key, monotone, proportional, additive)",
+        "independence of calls (repeat after overwriting the returned stack, earlier results unchanged, stack and dose "
+        "arguments untouched) is read into 'the filter is linear': a function of its arguments",
         "tolerances: 2e-3 in the exponent, 1e-8 on residuals (spreads, linearity, mean); float64 stacks",
         "calibration table generated by tools/gen_critexp.py with decimal from the closed form in the property statement"]
     # the committed calibration table must be what the tool generates from the statement
